@@ -5,42 +5,47 @@ import NmVerif.Index.SelCommon
   Stable names:
     `Index.shapeTake shape nIdx axis : Shape`          index::shape_take, integer axis
     `Index.shapeTakeNone nIdx : Shape`                 index::shape_take, axis None
-    `Index.indexTake d indices axis : Idx`             index::take, integer axis
+    `Index.indexTake d shape indices axis : Idx`       index::take, integer axis
     `Index.indexTakeNone d shape indices : Idx`        index::take, axis None
     `Index.takeView src indices axis : Option IxView`  view::take(a, indices, axis)  (`axis : Option Int`; never Nothing)
 
-  Facts mirrored (take.hpp:17-100; view/take.hpp passes `axis` through):
-    * `res[i] = (i == axis) ? … : …` with the comparison in an unsigned common type: a negative axis matches no `i`
-      (shape and elements of the source come back unchanged);
-    * `indices[d[axis]]` is stored verbatim into the unsigned source index: negative entries are NOT normalised
-      (`-1` becomes 2^64-1), entries ≥ extent are not checked;
-    * axis None: `compute_indices(indices[d[0]], shape)`.
+  Facts mirrored (take.hpp; view/take.hpp passes `axis` through):
+    * both functions normalise the axis first (`a < 0 ? a + len(shape) : a`, repaired: "take.negative-axis"), then
+      `res[i] = (i == axis) ? … : …`;
+    * `normalize_take_index(indices[d[axis]], shape[axis])`: a negative entry counts from the end of the axis
+      (repaired: "take.negative-index"); entries outside `[-extent, extent)` are not checked;
+    * axis None: `compute_indices(normalize_take_index(indices[d[0]], product(shape)), shape)`.
   A destination entry that addresses no element of `indices` (UB; impossible inside the view's shape) is answered 2^64-1.
   Core Lean only.
 -/
 namespace NmVerif.Index
 
-def shapeTake (shape : Shape) (nIdx : Nat) (axis : Int) : Shape := mapAt (fun _ => nIdx) axis 0 shape
+def shapeTake (shape : Shape) (nIdx : Nat) (axis : Int) : Shape := mapAt (fun _ => nIdx) (normAxis axis shape.length) 0 shape
 
 def shapeTakeNone (nIdx : Nat) : Shape := [nIdx]
 
-/-- `indices[k]` (an `int`) converted to `size_t`: non-negative values unchanged, negative ones wrap -/
-def takeEntry (indices : List Int) (k : Nat) : Nat :=
+/-- `normalize_take_index(indices[k], extent)`: a negative entry counts from the end (`v + extent`), then the value
+    is stored into a `size_t` -/
+def takeEntry (indices : List Int) (extent : Nat) (k : Nat) : Nat :=
   match indices[k]? with
-  | some v => i2u v
+  | some v => i2u (if v < 0 then v + (extent : Int) else v)
   | none => u64 (-1)
 
-def indexTake (d : Idx) (indices : List Int) (axis : Int) : Idx := mapAt (takeEntry indices) axis 0 d
+/-- extent of the (normalised) axis; 0 when the axis addresses nothing (then no coordinate matches either) -/
+def axisExtent (shape : Shape) (axis : Int) : Nat := (shape[(normAxis axis shape.length).toNat]?).getD 0
+
+def indexTake (d : Idx) (shape : Shape) (indices : List Int) (axis : Int) : Idx :=
+  mapAt (takeEntry indices (axisExtent shape axis)) (normAxis axis shape.length) 0 d
 
 def indexTakeNone (d : Idx) (shape : Shape) (indices : List Int) : Idx :=
   match d with
-  | i :: _ => computeIndices (takeEntry indices i) shape (strides shape)
+  | i :: _ => computeIndices (takeEntry indices (prod shape) i) shape (strides shape)
   | [] => []
 
 /-- `view::take(a, indices, axis)`.  NOTE `take_t::index` loops `for i < dim(src)` over `d` (same rank). -/
 def takeView (src : Shape) (indices : List Int) (axis : Option Int) : Option IxView :=
   match axis with
   | none => some ⟨src, shapeTakeNone indices.length, fun d => some (indexTakeNone d src indices)⟩
-  | some ax => some ⟨src, shapeTake src indices.length ax, fun d => some (indexTake d indices ax)⟩
+  | some ax => some ⟨src, shapeTake src indices.length ax, fun d => some (indexTake d src indices ax)⟩
 
 end NmVerif.Index
